@@ -5,6 +5,7 @@ go 1.22
 require (
 	berty.tech/go-ipfs-log v1.10.3-0.20240719141234-29e2d26e2aeb
 	berty.tech/go-orbit-db v0.0.0
+	github.com/anishathalye/porcupine v1.3.0
 	github.com/ipfs/boxo v0.20.0
 	github.com/ipfs/go-block-format v0.2.0
 	github.com/ipfs/go-cid v0.4.1
